@@ -194,3 +194,4 @@ LEVEL_TEXT = ('Every generated (value, configuration) is printed by the real pfo
               'with the canonical form of the input; all trees up to 3 (thorough 4) nodes over an adversarial leaf alphabet are covered '
               'exhaustively, larger ones randomly. Held-on-what-was-observed, not a proof.')
 LEVEL_NOTE = 'Trusts CPython eval/ast and the canonicaliser in vlib/values.py; configurations are sampled (boundary widths L-1..L+1 always included).'
+ANCHORS = ['prettyprinter.pretty_bracketable_iterable', 'prettyprinter.pretty_dict', 'prettyprinter.pretty_frozenset', 'prettyprinter.pretty_float', 'prettyprinter.pretty_str', 'prettyprinter.str_to_lines', 'prettyprinter.escape_str_for_quote', 'prettyprinter._AlwaysSortable.__lt__', 'layout.best_layout', 'render.default_render_to_stream']
